@@ -1,4 +1,7 @@
 import PromProofs.DbRun
+import PromProofs.DbRunAll
+import PromProofs.DbReopenWith
+import PromProofs.TombstonesTrunc
 /-
   C01 — Queries return exactly the committed, undeleted samples.
   Property theorems only (helper lemmas: PromProofs/Db*.lean). The statement is `Prom.Db.holds`
@@ -97,8 +100,8 @@ theorem cleantomb_preserves (d : Db) (r : Ref) (hG : Good d r) : Good d.cleanTom
 
 /-- `DB.Delete a b sel`: exactly the samples of the selected series with `a ≤ t ≤ b` disappear
     (the reference after the step is `r.del a b sel`, which is what `Ref.step` computes). Coverage of
-    `Intervals.add` is the explicit hypothesis `CoverHyp d` (for the tombstone lists present in `d`,
-    including the inverted intervals `Head.Delete` produces); C20 develops it. -/
+    `Intervals.add` is the explicit hypothesis `CoverHyp d` here; `delete_exact_canon` below replaces
+    it by the tombstone invariant `TInv`, which every history maintains. -/
 theorem delete_exact (d : Db) (r : Ref) (hI : Inv d) (hS : Sim d r) (hC : CoverHyp d)
     (a b : Int) (sel : Option Nat) :
     Inv (d.delete a b sel) ∧ Sim (d.delete a b sel) (r.del a b sel) ∧
@@ -136,9 +139,8 @@ example : ∃ r, Good (Db.after { cfg := ⟨100, 0⟩ } [.begin, .app 0 10 1, .c
     * at each `del`, the coverage property of `Intervals.add` for the tombstone lists in the state.
   `query_exact_partial_nodel_noreopen`: for histories without `del`/`reopen` all side conditions are
   syntactic (`opOk`, `wfFrom`).
-  Missing for a corrected full statement: `reopen` (needs a WAL invariant: replaying the logged
-  records ≥ the blocks' max time rebuilds the same visible head samples), and discharging
-  `CoverHyp` (C20). -/
+  Superseded by `query_exact_partial` below (all operations incl. `reopen`, decidable side
+  conditions only, `CoverHyp` discharged); kept because `runOk` is stated on `Prop` level. -/
 theorem query_exact_partial_noreopen (cfg : Cfg) (ops : List Op)
     (h0 : cfg.oooWin = 0) (h1 : 0 < cfg.chunkRange) (hrun : runOk { cfg := cfg } ops) :
     holds (ops.zip (Db.run { cfg := cfg } ops)) = true := by
@@ -171,5 +173,137 @@ example :
   simp only [List.mem_cons, List.mem_nil_iff, or_false] at hop
   rcases hop with rfl | rfl | rfl | rfl | rfl | rfl | rfl | rfl | rfl | rfl | rfl | rfl | rfl <;>
     exact ⟨by simp [opOk, MinI64, MaxI64], by intros; simp, by simp⟩
+
+/-! ### Deletion without the coverage hypothesis (C20's `add_canonical` along histories)
+
+  `TInv d` (PromProofs/DbTombs.lean): every tombstone list of the state — head and blocks — is canonical
+  (C20 `Canon`: valid, sorted, non-overlapping, non-adjacent intervals) with int64 endpoints, and all
+  sample timestamps are ≥ MinInt64. It holds initially and every operation preserves it, because every
+  interval handed to `Intervals.add` is VALID: block stones by construction, head stones since the fix
+  of finding F35 (`Head.Delete` skipped nothing and stored the INVERTED interval `clampInterval` yields
+  when the requested range misses a series' own range; an inverted interval makes the list unsorted and
+  then (A) a later `Add` can drop a live tombstone — binary search + merge — and (B)
+  `MemTombstones.TruncateBefore`'s backward scan can cut live tombstones at the next head compaction:
+  deleted samples came back. Both reproduced on the real tsdb.DB, corpus/C01/db-inverted-stone-*.ops;
+  fixed in /repo by "fix: tsdb: Head.Delete stores inverted tombstone intervals that later bring deleted
+  samples back"; `Db.delete` follows the fixed code). On canonical lists C20 `add_canonical` gives exact
+  coverage, so `CoverHyp` is no longer a hypothesis. -/
+
+/-- `DB.Delete a b sel` in any state satisfying the invariants: exactly the selected samples in range
+    disappear, and the tombstone invariant is kept — no hypothesis about `Intervals.add`. -/
+theorem delete_exact_canon (d : Db) (r : Ref) (hI : Inv d) (hS : Sim d r) (hT : TInv d)
+    (a b : Int) (sel : Option Nat) :
+    Inv (d.delete a b sel) ∧ Sim (d.delete a b sel) (r.del a b sel) ∧ TInv (d.delete a b sel) ∧
+      Ref.step r (.del a b sel) .ok = some (r.del a b sel) :=
+  ⟨(Db.delete_tinv_and_preserves hI hS hT a b sel).1, (Db.delete_tinv_and_preserves hI hS hT a b sel).2.1,
+   (Db.delete_tinv_and_preserves hI hS hT a b sel).2.2, rfl⟩
+
+/-- Every head stone `DB.Delete` logs and stores is a valid interval (F35 fixed). -/
+theorem head_stones_valid (d : Db) (a b : Int) (sel : Option Nat) : stonesValid d a b sel :=
+  Db.stonesValid_holds d a b sel
+
+/-- The tombstone invariant discharges `CoverHyp` for every VALID int64 interval (what `DB.Delete`
+    passes to `Intervals.add`). -/
+theorem cover_of_tinv (d : Db) (hT : TInv d) :
+    (∀ s ∈ d.series, ∀ iv : Interval, (I64 iv.mint ∧ I64 iv.maxt) → iv.mint ≤ iv.maxt → AddCoversAt s.tombs iv) ∧
+    (∀ blk ∈ d.blocks, ∀ s ∈ blk.series, ∀ iv : Interval, (I64 iv.mint ∧ I64 iv.maxt) → iv.mint ≤ iv.maxt →
+      AddCoversAt s.tombs iv) :=
+  ⟨fun s hs _ h64 hv => (Db.addTomb_canon (hT.headOk s hs).1 (hT.headOk s hs).2 h64 hv).2.2,
+   fun blk hb s hs _ h64 hv => (Db.addTomb_canon (hT.blkOk blk hb s hs).1 (hT.blkOk blk hb s hs).2 h64 hv).2.2⟩
+
+/-- Head compaction truncates the head tombstones with `tombs.filter (maxt ≥ T)`; the code's
+    `MemTombstones.TruncateBefore` scans backwards and cuts at the first interval ending before `T`
+    (`Prom.Tombstones.truncIvs`, C20). On the canonical lists of `TInv` the two agree. -/
+theorem compact_truncate_matches_code (d : Db) (hT : TInv d) (T : Int) :
+    ∀ s ∈ d.series, Prom.Tombstones.truncIvs T s.tombs = s.tombs.filter (fun iv => decide (T ≤ iv.maxt)) :=
+  fun s hs => Prom.Tombstones.truncIvs_eq_filter T s.tombs (hT.headOk s hs).1
+
+/-! ### (f) restart
+
+  `WGood d r` = `Good d r` + `TInv d` + window facts `XInv d` + the WAL invariant `WalInv d`
+  (PromProofs/DbWal.lean): for EVERY cutoff `c ≥ max block maxt`, the head replayed from `d.wal` with
+  cutoff `c` holds every live physical sample `≥ c`, every other replayed sample is older than
+  `d.minValid` and hidden by a replayed tombstone, and live samples are visible in the replayed head
+  iff they are visible in `d`. The WAL holds, in commit order, exactly the batches as accepted at
+  `Append` time plus the head-delete stones; blocks hold what compaction moved. -/
+
+/-- Restart through the WAL replay preserves the refinement relation (hence every query result). -/
+theorem reopen_preserves (d : Db) (r : Ref) (hW : WGood d r) :
+    WGood ({ d.reopen with app := none }) { r with pending := [], open_ := false } :=
+  Db.reopen_wgood hW
+
+/-- …in particular a query after the restart answers exactly the reference rows. -/
+theorem reopen_query_matches (d : Db) (r : Ref) (hW : WGood d r) (a b : Int) :
+    ({ d.reopen with app := none } : Db).query a b = r.query a b := by
+  have h := Db.reopen_wgood hW
+  have : ({ r with pending := [], open_ := false } : Ref).query a b = r.query a b := rfl
+  rw [← this]
+  exact Db.query_matches h.good.inv h.good.sim a b
+
+/-- `WGood` is satisfiable: the empty database, and (by `step_wgood`) every state a covered history reaches. -/
+theorem wgood_init (cfg : Cfg) (h0 : cfg.oooWin = 0) (h1 : 0 < cfg.chunkRange) : WGood { cfg := cfg } {} :=
+  Db.wgood_init cfg h0 h1
+
+/-- Every operation, including `reopen`, preserves `WGood` under the decidable side conditions `stepOkB`. -/
+theorem step_preserves_all (d : Db) (r : Ref) (hW : WGood d r) (op : Op) (hok : stepOkB d op = true) :
+    ∃ r', Ref.step r op (d.step op).2 = some r' ∧ WGood (d.step op).1 r' := Db.step_wgood hW op hok
+
+/-! ### Finding F30: CleanTombstones + restart (the side condition of `cleantomb`)
+
+  `Delete` on persisted blocks writes block tombstones only; `CleanTombstones` rewrites the blocks and
+  drops a block that became empty; the next start takes `minValidTime` from the remaining blocks and the
+  WAL replays the deleted samples. `corpus/C01/db-cleantomb-restart.ops` on the model: -/
+
+def f30_history : List Op :=
+  [.begin, .app 0 1001 1, .app 0 3001 2, .app 0 4004 3, .app 1 6004 4, .commit, .compact, .reopen,
+   .del MinI64 6000 (some 0), .q 0 7000, .compact, .cleantomb, .q 0 7000, .reopen, .q 4000 5000, .q 0 7000]
+
+/-- The history violates the statement at the first query after the second restart (step 14). -/
+theorem f30_violates_witness :
+    holdsFrom {} (f30_history.zip (Db.run { cfg := ⟨1000, 0⟩ } f30_history)) 0 = some 14 := by decide
+
+/-- The side condition of `query_exact_partial` fails exactly at its `cleantomb` (step 11): everything
+    before satisfies `runOkB`, and `CleanTombstones` lowers the largest block maxt. -/
+theorem f30_side_condition_witness :
+    runOkB { cfg := ⟨1000, 0⟩ } (f30_history.take 11) = true ∧
+    stepOkB (Db.after { cfg := ⟨1000, 0⟩ } (f30_history.take 11)) .cleantomb = false := by decide
+
+/-! ### The statement over ALL operations
+
+  `query_exact_partial`: every history over begin/app/commit/rollback/del/compact/cleantomb/reopen/q/win,
+  run from the empty database (out-of-order ingestion disabled), satisfies the C01 predicate, provided
+  the run satisfies the DECIDABLE side conditions `runOkB` (`Db.stepOkB`, evaluated on the model state
+  before each step):
+    * appended timestamps are int64 values other than the MaxInt64 sentinel, and no append re-submits
+      the timestamp of its series' newest physical sample while a tombstone hides it — finding F28
+      (`query_exact_full_witness`: the statement is false without it, in model and code);
+    * `del` and `compact` only while no appender is open (not a restriction of single-threaded
+      histories of the real system: `DB.Compact` waits for open appenders; a `del` between `app` and
+      `commit` is another way to produce F28);
+    * `cleantomb` does not lower the largest block maxt — finding F30 (`f30_violates_witness`).
+  These are exactly the two known findings; the third one met on the way (F35, inverted head
+  tombstones) is fixed in /repo and needs no side condition any more. -/
+theorem query_exact_partial (cfg : Cfg) (ops : List Op)
+    (h0 : cfg.oooWin = 0) (h1 : 0 < cfg.chunkRange) (hrun : runOkB { cfg := cfg } ops = true) :
+    holds (ops.zip (Db.run { cfg := cfg } ops)) = true := by
+  unfold holds
+  rw [Db.holdsFrom_runOkB ops _ _ 0 (Db.wgood_init cfg h0 h1) hrun]
+  rfl
+
+/-- The side conditions are met by a history with duplicates, deletions (one missing the series' own
+    range), head compaction, tombstone cleaning, restarts and an open transaction across a restart. -/
+example :
+    let ops : List Op := [.begin, .app 0 10 1, .app 0 10 2, .app 1 250 3, .commit, .q 0 300,
+      .del 5 15 (some 0), .del 400 500 none, .q 0 300, .begin, .app 0 400 4, .commit, .compact, .reopen,
+      .q (-5) 1000, .del 240 260 none, .cleantomb, .begin, .app 1 420 5, .reopen, .q 0 1000, .win]
+    runOkB { cfg := ⟨100, 0⟩ } ops = true := by decide
+
+/-! ### `Db.reopenWith` (restart with the m-mapped-chunk oracle, used by the suite) -/
+
+/-- With the empty oracle `reopenWith` is `reopen`, provided no sample sits at `MinInt64` (the oracle
+    default; such a sample would count as m-mapped). -/
+theorem reopenWith_nil (d : Db) (h1 : ∀ s ∈ d.series, ∀ x ∈ s.phys, MinI64 < x.t)
+    (h2 : ∀ xs, Rec.samples xs ∈ d.wal → ∀ p ∈ xs, MinI64 < p.2.t) :
+    Db.reopenWith [] d = d.reopen := Db.reopenWith_nil d h1 h2
 
 end Prom.C01
